@@ -233,3 +233,15 @@ func vTransOK(t pr.SDimensions) bool {
 //@   call roundedBoxPath#1 assert arg0 == ctx.dst
 //@   call roundedBoxPath#5 assert arg0 == ctx.dst
 //@   call roundedBoxPath#8 assert arg0 == ctx.dst
+
+// the background colour is clipped to, and painted over, the painting area of the bottom layer: each of the
+// two operations follows its own rectangle
+//@ func (drawContext).drawBackground$1$1
+//@   props C14
+//@   modifies anything
+//@   unclaimed call-*-pre* "the background has at least one layer (built by the layout)"
+//@   call Clip#1 assert[path-before-clip] calls(Rectangle) == 1 && calls(Paint) == 0
+//@   call Paint#1 assert[path-before-paint] calls(Rectangle) == 2 && calls(Clip) == 1 && arg1 == backend.FillNonZero
+//@   call Rectangle#1 assert[painting-area] arg1 == paintingArea[0] && arg2 == paintingArea[1] && arg3 == paintingArea[2] && arg4 == paintingArea[3]
+//@   call Rectangle#2 assert[painting-area] arg1 == paintingArea[0] && arg2 == paintingArea[1] && arg3 == paintingArea[2] && arg4 == paintingArea[3]
+//@   assert after paintingArea#1: paintingArea == bg.Layers[len(bg.Layers)-1].PaintingArea
